@@ -276,6 +276,14 @@ pub fn run_history(out: &mut Out, rng: &mut Rng, h: &History) {
         replay["ops"].as_array_mut().unwrap().push(op.json());
         // C14: the Simulation query issued in the same state right before the swap
         let quote = if let Op::Swap { i, j, x, .. } = &op { Some(w.simulate(*i, *j, *x)) } else { None };
+        if let (Some(q), Op::Swap { i, j, x, .. }) = (&quote, &op) {
+            // correspondence of the query path itself (Stable3Quotes.simulate3 on the state the model reaches by the same history)
+            let input = format!("(({}, {}, ({}, {}, {}), ({}, {}, {})), {}, ({}, {}, {}))", h.amp, h_init, h.fees.0, h.fees.1, h.fees.2,
+                                coqbool(h.kinds[0]), coqbool(h.kinds[1]), coqbool(h.kinds[2]), coqlist(&items), i, j, x);
+            let o: Vec<String> = match q { Ok(s) => vec!["0".into(), s.return_amount.to_string(), s.spread_amount.to_string(), s.swap_fee_amount.to_string(),
+                                                         s.protocol_fee_amount.to_string(), s.burn_fee_amount.to_string()], Err(_) => vec!["1".into()] };
+            out.case("c14_sim3", &input, &o, replay.clone());
+        }
         let r = exec(&mut w, &op);
         let after = snap(&w);
         // C15 on the 3pool (no belief price in this stream): accepted <=> floor(spread*1e18/(gross+spread)) <= min(max_spread or 1%, 50%)
